@@ -99,6 +99,13 @@ where
     #[inline(always)]
     fn refill_buffer(&mut self) {
         let buffer_len = self.remaining_file_bytes().min(Self::NORMAL_BUFFER_SIZE);
+        #[cfg(anydb_verif)]
+        rawdb::verif::io_access(
+            self._lock.id(),
+            self._lock.len(),
+            self.file_offset - self._lock.start(),
+            buffer_len,
+        );
         self.file
             .read_exact(&mut self.buffer[..buffer_len])
             .expect("Failed to read file buffer");
